@@ -72,7 +72,7 @@ def inject_run(opcode, operands, expc=2):
     from halmos.utils import EVM as OPC
 
     sv, args = _sevm(expc)
-    code = Contract(bytes([opcode]) + TAIL)
+    code = Contract((bytes([opcode]) if isinstance(opcode, int) else bytes(opcode)) + TAIL)
     this = z3.BitVecVal(0x1000, 160)
     msg = Message(target=this, caller=z3.BitVecVal(0x2000, 160), origin=z3.BitVecVal(0x2000, 160),
                   value=z3.BitVecVal(0, 256), data=ByteVec(), call_scheme=OPC.CALL)
@@ -477,6 +477,84 @@ def tasks_part_c(run, rng):
     return tasks
 
 
+# ---------------------------------------------------------------------------- part D
+# an instruction whose operand is the *result of an earlier instruction on the same symbols*: (x op1 y) op2 x and x op2 (x op1 y).
+# Rewrites that recognise such shapes (xy / x = y, ...) must keep the corner cases (x == 0, overflow).  Operands are full words or
+# narrow symbols zero-extended to a word (uint8 / address), so that products cannot overflow.
+D_OP1 = ["MUL", "ADD", "SUB", "AND", "SHL"]
+D_OP2 = ["DIV", "SDIV", "MOD", "SMOD", "SUB", "EQ", "LT"]
+D_WIDTHS = [8, 160, 256, 128]
+
+
+def composed_obligation(op1, op2, order, wa, wb, res):
+    def mk(name, w):
+        if w == 256:
+            v = z3.BitVec(name, 256)
+            return BV(v), v
+        n = z3.BitVec(f"{name}{w}", w)
+        t = z3.Concat(z3.BitVecVal(0, 256 - w), n)
+        return BV(t), t
+    a, za = mk("a", wa)
+    b, zb = mk("b", wb)
+    o1, o2 = PY[op1][0], PY[op2][0]
+    # stack (top first): a, b
+    if order == 0:   # (a op1 b) op2 a : DUP1 SWAP2 SWAP1 op1 op2  -> op1 pops (a, b) ; then op2 pops (a op1 b, a)
+        code = bytes([0x80, 0x91, 0x90, o1, o2])
+        spec = Z[op2](Z[op1](za, zb), za)
+    else:            # a op2 (a op1 b) : DUP1 SWAP2 SWAP1 op1 SWAP1 op2
+        code = bytes([0x80, 0x91, 0x90, o1, 0x90, o2])
+        spec = Z[op2](za, Z[op1](za, zb))
+    res["counters"]["evaluations"] += 1
+    res["counters"]["composed_programs"] += 1
+    wit = dict(op=f"{op2}({op1})", shape=[op1, op2, str(order), str(wa), str(wb)], part="D")
+    err, stuck, out, conds, crash = inject_run(code, [a, b])
+    if crash:
+        res["violations"].append(dict(what=f"{op2} after {op1}: internal exception / not total", key=f"{op2}-{op1}-D-crash", crash=crash, **wit))
+        return
+    if stuck or err is not None:
+        res["violations"].append(dict(what=f"{op2} after {op1}: no result for symbolic operands ({err})", key=f"{op2}-{op1}-D-err-{err}", **wit))
+        return
+    got = z3.BitVecVal(int.from_bytes(out, "big"), 256) if isinstance(out, bytes) else pathmodel.exact_defs(out)
+    vars_ = sorted({str(v): v for z in (za, zb) for v in _free_vars(z)}.items())
+    for trial in [0, 1, 2, 3, 5, 0x80, 0xFF, 2**127, 2**159 + 1, 2**255 + 1, 2**256 - 1, 0x1234567]:
+        for flip in (0, 1):
+            subs = []
+            for i, (_, v) in enumerate(vars_):
+                val = (trial if (i ^ flip) == 0 else (trial * 3 + 7)) % (1 << v.size())
+                subs.append((v, z3.BitVecVal(val, v.size())))
+            g, w = z3.simplify(z3.substitute(got, *subs)), z3.simplify(z3.substitute(spec, *subs))
+            res["counters"]["composed_valuations"] += 1
+            if z3.is_bv_value(g) and z3.is_bv_value(w) and g.as_long() != w.as_long():
+                res["violations"].append(dict(what=f"{op2} applied to the result of {op1} on the same operand: result differs from the specification",
+                                              key=f"{op2}-{op1}-D-wrong", model=str(subs)[:300], term=str(got)[:300], got=hex(g.as_long()), want=hex(w.as_long()), **wit))
+                return
+    if z3.eq(z3.simplify(got), z3.simplify(spec)):
+        res["counters"]["smt_discharged"] += 1
+        res["distinct"].append(f"D:{op1}:{op2}:{order}:{wa}:{wb}")
+        return
+    s = z3.Solver()
+    s.set(timeout=3000)
+    s.add(got != spec)
+    r = s.check()
+    if r == z3.unsat:
+        res["counters"]["smt_discharged"] += 1
+        res["distinct"].append(f"D:{op1}:{op2}:{order}:{wa}:{wb}")
+    elif r == z3.sat:
+        res["violations"].append(dict(what=f"{op2} applied to the result of {op1} on the same operand: result differs from the specification",
+                                      key=f"{op2}-{op1}-D-wrong", model=str(s.model())[:300], term=str(got)[:300], **wit))
+    else:
+        res["counters"]["composed_judged_on_valuations_only"] += 1
+
+
+def tasks_part_d(run, rng):
+    combos = [(o1, o2, order, wa, wb) for o1 in D_OP1 for o2 in D_OP2 for order in (0, 1) for wa in D_WIDTHS for wb in D_WIDTHS]
+    if not run.thorough():
+        must = [c for c in combos if c[0] == "MUL" and c[1] in ("DIV", "SDIV", "MOD") and c[3] in (8, 160) and c[4] in (8, 256)]
+        rest = [c for c in combos if c not in must]
+        combos = must + rng.sample(rest, 150)
+    return [("D", "COMPOSED", None, combos[i : i + 10]) for i in range(0, len(combos), 10)]
+
+
 # ---------------------------------------------------------------------------- part M
 # HalmosBitVec arithmetic methods called *without* an abstraction (the exact-term code path)
 METHODS = {
@@ -565,7 +643,9 @@ def worker(task):
             smt_obligation(name, case, res)
         elif part == "M":
             check_method(name, reps, case, res)
-    if cases and len(res["samples"]) == 0 and rng.random() < 0.05:
+        elif part == "D":
+            composed_obligation(*case, res)
+    if part != "D" and cases and len(res["samples"]) == 0 and rng.random() < 0.05:
         res["samples"].append(dict(part=part, op=name, reps=reps, case=[hex(v) if isinstance(v, int) else str(v) for v in (cases[0] if part != "B" else cases[0][1])]))
     return res
 
@@ -592,6 +672,9 @@ def main():
             smt_obligation(name, tuple(int(s_) if s_.isdigit() else s_ for s_ in w["shape"]), res)
         elif w.get("part") == "M":
             check_method(name, tuple(w["reps"]), vals, res)
+        elif w.get("part") == "D":
+            sh = w["shape"]
+            composed_obligation(sh[0], sh[1], int(sh[2]), int(sh[3]), int(sh[4]), res)
         run.merge(res)
         run.count("evaluations", res["counters"]["evaluations"])
         run.finish()
@@ -602,7 +685,7 @@ def main():
     if msg:
         run.known_finding("signextend-symbolic-index-not-modelled", msg)
 
-    tasks = tasks_part_a(run, rng) + tasks_grid8(run, rng) + tasks_part_b(run, rng) + tasks_part_c(run, rng)
+    tasks = tasks_part_a(run, rng) + tasks_grid8(run, rng) + tasks_part_b(run, rng) + tasks_part_c(run, rng) + tasks_part_d(run, rng)
     rng.shuffle(tasks)
     # EXP batches first so that a hang is found early
     tasks.sort(key=lambda t: 0 if t[1] == "EXP" else 1)
@@ -613,7 +696,7 @@ def main():
             run.merge(value)
             for note in value.get("inconclusive_notes", []):
                 run.extra.setdefault("smt_timeouts_shapes", []).append(note)
-        elif status in ("timeout", "killed") and item[0] == "C":
+        elif status in ("timeout", "killed") and item[0] in ("C", "D"):
             # the SMT oracle did not finish: inconclusive for that shape, never a violation
             run.count("smt_timeouts")
             run.extra.setdefault("smt_timeouts_shapes", []).append(f"{item[1]}:{item[3][0]}")
@@ -633,6 +716,7 @@ def main():
     run.require("bool_typed_stack_values_B", 100)
     run.require("smt_discharged", 100)
     run.require("grid8_cases", 10000)
+    run.require("composed_programs", 100)
     run.finish()
 
 
